@@ -219,9 +219,17 @@ func modelLine(c *Case) string {
 			}
 			ctx = common.L(append([]string{"assign"}, bs...)...)
 		case "return":
-			ctx = "(ret 0)"
+			ctx = "(ret 0 1 0)"
 		case "retpos":
-			ctx = "(ret 1)"
+			ctx = "(ret 1 2 0)"
+		case "retswap":
+			ctx = "(ret 0 2 1)"
+		case "assignmap":
+			bs := make([]string, len(c.Sig.Out))
+			for i := range bs {
+				bs[i] = "0"
+			}
+			ctx = common.L(append([]string{"assign"}, bs...)...)
 		case "cond":
 			ctx = "(cond)"
 		}
